@@ -4,9 +4,11 @@ package mux
 
 import (
 	"html"
+	"math/bits"
 	"regexp"
 	"strconv"
 	"strings"
+	"unicode"
 
 	zzv "github.com/issue9/mux/v9/internal/zzverif"
 )
@@ -81,5 +83,38 @@ func ZZSelfRunes(n int) {
 	bv, err3 := strconv.ParseBool(s)
 	zzv.Obs("bool", bv)
 	zzv.Obs("boolerr", err3 != nil)
+	zzv.Cover("selftest")
+}
+
+var zzSelfWords = []string{"X-İd", "x-id", "Kelvin", "kelvin", "straße", "ſtop", "8٠８²", "\xff\xfe", ""}
+
+// ZZSelfUnicode(n): unicode predicates / case mappings / math/bits / Builder.Grow on ASCII strings of
+// <= n bytes (symbolic) and on a few concrete non-ASCII words.
+func ZZSelfUnicode(n int) {
+	s := zzv.Bytes("s", n)
+	zzv.Assume(zzASCII(s))
+	w := zzSelfWords[zzv.Choice("w", len(zzSelfWords))]
+	zzv.Obs("digits", strings.IndexFunc(s, func(r rune) bool { return !unicode.IsDigit(r) }))
+	zzv.Obs("letters", strings.IndexFunc(s, unicode.IsLetter))
+	zzv.Obs("space", strings.TrimFunc(s, unicode.IsSpace))
+	zzv.Obs("upper", strings.Map(unicode.ToUpper, s))
+	zzv.Obs("fields", strings.Join(strings.FieldsFunc(s, unicode.IsPunct), "|"))
+	zzv.Obs("wdigits", strings.IndexFunc(w, func(r rune) bool { return !unicode.IsDigit(r) }))
+	zzv.Obs("wnum", strings.IndexFunc(w, unicode.IsNumber))
+	zzv.Obs("wlower", strings.ToLower(w))
+	zzv.Obs("wupper", strings.ToUpper(w))
+	for _, x := range zzSelfWords {
+		zzv.Obs("wfold", strings.EqualFold(w, x))
+	}
+	zzv.Obs("sfold", strings.EqualFold(s, "k-i"))
+	x := uint(len(s))<<3 | 5
+	zzv.Obs("bits", bits.TrailingZeros(x<<uint(len(s)))*100+bits.Len(x)*10+bits.OnesCount(x))
+	var sb strings.Builder
+	grew := func() (p bool) {
+		defer func() { p = recover() != nil }()
+		sb.Grow(len(s) - 2)
+		return
+	}()
+	zzv.Obs("growpanic", grew)
 	zzv.Cover("selftest")
 }
